@@ -19,7 +19,7 @@ const (
 type IP6 []byte
 
 func (p IP6) IsValid() error {
-	if len(p) >= IP6HeaderLen && int(p.PayloadLen()+IP6HeaderLen) == len(p) {
+	if len(p) >= IP6HeaderLen && int(p.PayloadLen())+IP6HeaderLen == len(p) { // int: PayloadLen+40 exceeds uint16 for payloads >= 65496
 		return nil
 	}
 	return fmt.Errorf("invalid ipv6 len=%d: %w", len(p), ErrFrameLen)
